@@ -132,7 +132,8 @@ func propDecisionTable(c *Case) {
 			age = []time.Duration{time.Nanosecond, time.Hour, 240 * time.Hour}[c.Pick("age", 3)]
 		}
 	case ksStaleOld:
-		age = cfg.maxStaleness + []time.Duration{0, 1, time.Hour, 240 * time.Hour}[c.Pick("age", 4)]
+		// "expired longer than MaxStaleness": an age of exactly MaxStaleness is left open, start at +1ns
+		age = cfg.maxStaleness + []time.Duration{1, 2, time.Hour, 240 * time.Hour}[c.Pick("age", 4)]
 	}
 
 	callerTTL := []time.Duration{0, time.Hour, 10 * time.Minute}[c.Pick("callerTTL", 3)]
@@ -264,7 +265,10 @@ func propDecisionTable(c *Case) {
 			e       int64
 		}
 
-		var want post
+		var (
+			want post
+			altE int64 = -1
+		)
 
 		finalTTL := callerTTL
 		if finalTTL == 0 {
@@ -289,7 +293,10 @@ func propDecisionTable(c *Case) {
 				c.Assert(isErr(cachedErr), sig("cached-failure-served"), "absent entry + cached failure: got (%v, %v), want the cached error", res, resErr)
 			case ksStaleRecent:
 				c.Assert(isErr(cachedErr) || isStale(), sig("cached-failure-served"), "acceptable stale + cached failure: got (%v, %v), want the cached error or the stale value", res, resErr)
+				// the refresh is promised "before the builder function is invoked"; no builder runs here,
+				// so the stale entry may have been refreshed or left alone
 				want = post{true, stale, t0.Add(cfg.effUpdateTTL()).UnixNano()}
+				altE = oldE
 			case ksStaleOld:
 				c.Assert(isErr(cachedErr) || (isStale() && !failHard), sig("cached-failure-served"), "too-old stale + cached failure (FailHard=%v): got (%v, %v)", failHard, res, resErr)
 				want = post{true, stale, oldE}
@@ -359,7 +366,7 @@ func propDecisionTable(c *Case) {
 		c.Assert(n <= 1, "foreign-key-written", "backend holds %d entries", n)
 		c.Tracef("backend at quiescence: %+v, want %+v", got, want)
 		c.Assert(got.present == want.present && got.val == want.val, sig("post-backend-value"), "backend holds %+v at quiescence, want %+v", got, want)
-		c.Assert(got.e == want.e, sig("post-backend-expiry"), "backend entry expires at %d (offset %v), want %d (offset %v)", got.e, time.Duration(got.e-t0.UnixNano()), want.e, time.Duration(want.e-t0.UnixNano()))
+		c.Assert(got.e == want.e || (altE >= 0 && got.e == altE), sig("post-backend-expiry"), "backend entry expires at %d (offset %v), want %d (offset %v)", got.e, time.Duration(got.e-t0.UnixNano()), want.e, time.Duration(want.e-t0.UnixNano()))
 
 		// post-state: failure cache
 		fe, cached := w.fe.FailureCached(key)
